@@ -18,7 +18,8 @@ from mc.report import add_sample, add_violation, count, new_part
 from props.c04 import to_real
 
 LEVEL = "model_checking"
-RULE = ("per scenario (1..3 outstanding requests of 1..3 pairs, same/different sockets and remote nodes, create and receive "
+RULE = ("per scenario (nine hand-written and seven emitted by the real SDK: recv_keep, create_keep+recv_keep, two sockets, "
+        "recv/create_measure, sequential keep with post routine, NV recv_keep; 1..3 outstanding requests of 1..3 pairs, same/different sockets and remote nodes, create and receive "
         "roles mixed, keep and measure types, a target virtual qubit still allocated when its response arrives): BFS over all "
         "interleavings of {step one instruction, deliver next response of stream s, retry deferred responses}; state = (pc, "
         "blocked flag, registers, arrays, request queues with tot/left, ordered pending responses, unit module, used set, "
@@ -140,13 +141,64 @@ def scenarios() -> Dict[str, Tuple[List, List[Req], int]]:
     return S
 
 
+# ----------------------------------------------------------------------------- scenarios emitted by the real SDK
+_SDK_CACHE: Dict[str, Any] = {}
+
+
+def _sdk_program_cached(name):
+    if name not in _SDK_CACHE:
+        build, rlist, size, nv = SDK_SCENARIOS[name]
+        _SDK_CACHE[name] = _sdk_program(build, nv)
+    return _SDK_CACHE[name]
+
+
+def _sdk_program(build, hw_nv=False):
+    """Builds a host program with the real SDK (no controller attached) and returns the neutral form of the one
+    subroutine it flushes."""
+    from mc import refvm
+    from netqasm.sdk.build_types import GenericHardwareConfig, NVHardwareConfig
+    from netqasm.sdk.epr_socket import EPRSocket
+    from props import c16
+    epr0 = EPRSocket("bob", epr_socket_id=0)
+    epr1 = EPRSocket("bob", epr_socket_id=1)
+    conn = c16._Capture.make(epr_sockets=[epr0, epr1], hardware_config=NVHardwareConfig(5) if hw_nv else GenericHardwareConfig(5))
+    build(conn, epr0, epr1)
+    conn.flush()
+    assert len(conn.subs) == 1
+    return refvm.program_from_subroutine(conn.subs[0])
+
+
+def _post_measure(c, q, pair):
+    q.H()
+    q.measure()
+
+
+SDK_SCENARIOS = {
+    # name: (builder, [(role, remote, socket, type, number)], unit module size, nv hardware)
+    "sdk-recv_keep-2": (lambda c, e0, e1: e0.recv_keep(2), [("recv", 1, 0, "K", 2)], 5, False),
+    "sdk-create_keep-1+recv_keep-1": (lambda c, e0, e1: (e0.create_keep(1), e0.recv_keep(1)), [("create", 1, 0, "K", 1), ("recv", 1, 0, "K", 1)], 5, False),
+    "sdk-recv_keep-1-two-sockets": (lambda c, e0, e1: (e0.recv_keep(1), e1.recv_keep(1)), [("recv", 1, 0, "K", 1), ("recv", 1, 1, "K", 1)], 5, False),
+    "sdk-recv_measure-2": (lambda c, e0, e1: e0.recv_measure(2), [("recv", 1, 0, "M", 2)], 5, False),
+    "sdk-create_measure-2": (lambda c, e0, e1: e0.create_measure(2), [("create", 1, 0, "M", 2)], 5, False),
+    "sdk-recv_keep-seq-post-2": (lambda c, e0, e1: e0.recv_keep(2, sequential=True, post_routine=_post_measure), [("recv", 1, 0, "K", 2)], 5, False),
+    "sdk-recv_keep-2-nv": (lambda c, e0, e1: e0.recv_keep(2), [("recv", 1, 0, "K", 2)], 5, True),
+}
+
+
 # ----------------------------------------------------------------------------- world
 class World:
     def __init__(self, name: str):
         from netqasm.lang.subroutine import Subroutine
         world.reset()
-        prog, reqs, size = scenarios()[name]
+        if name in SDK_SCENARIOS:
+            build, rlist, size, nv = SDK_SCENARIOS[name]
+            prog = _sdk_program_cached(name)
+            world.reset()
+            reqs = [Req(role, remote, sock, tp, n, None, None, None) for role, remote, sock, tp, n in rlist]
+        else:
+            prog, reqs, size = scenarios()[name]
         self.name, self.prog, self.reqs = name, prog, reqs
+        self.sequential_reuse = name == "sdk-recv_keep-seq-post-2"
         self.ex = simctl.SimExecutor(name="ctrl", node_id=LOCAL, horizon=2000)
         self.stack = simctl.ScriptedStack()
         self.ex.network_stack = self.stack
@@ -167,12 +219,30 @@ class World:
         self.seq = 0
         # advance to the first scheduling point
         self._resume()
+        self._resolve()
 
     def _hook(self, sid, cmd):
         yield ("instr",)
 
     def _wait(self):
         yield ("blocked",)
+
+    def _resolve(self):
+        """fills in the array addresses / virtual ids of requests whose instruction has executed (SDK scenarios)"""
+        for j, req in enumerate(self.reqs):
+            if req.raddr is not None or len(self.issued) <= j:
+                continue
+            qs = self.ex._epr_create_requests if req.role == "create" else self.ex._epr_recv_requests
+            lst = qs[(req.remote, req.socket)]
+            if not lst:
+                continue
+            d = lst[-1]
+            req.raddr = d.ent_results_array_address
+            req.qaddr = d.q_array_address
+            if req.tp == "K" and d.q_array_address is not None:
+                req.vids = list(self.ex._app_arrays[APP][d.q_array_address, :])
+            else:
+                req.vids = []
 
     def _resume(self):
         try:
@@ -231,6 +301,7 @@ class World:
         from netqasm.qlink_compat import BellState, LinkLayerOKTypeK, LinkLayerOKTypeM, ReturnType
         if ev[0] == "step":
             self._resume()
+            self._resolve()
             return
         if ev[0] == "retry":
             self._guard(self.ex._handle_pending_epr_responses)
@@ -318,6 +389,8 @@ def check_state(w: World, before: Optional[Dict[str, Any]], ev: Tuple, snap, cas
     arrays = snap["arrays"]
     seen_tags = {}
     for i, req in enumerate(w.reqs):
+        if req.raddr is None:
+            continue
         a = arrays.get(str(req.raddr))
         if a is None:
             continue
@@ -337,7 +410,7 @@ def check_state(w: World, before: Optional[Dict[str, Any]], ev: Tuple, snap, cas
                 owner = next((key for key, f in exp.items() if f == sl), None)
                 bad("wrong-slice", f"slice {k} of request {i} holds the response that belongs to (request, pair) {owner}",
                     {"slice": sl, "expected": want})
-            elif req.tp == "K":
+            elif req.tp == "K" and not w.sequential_reuse and not w.name.endswith("-nv"):
                 v = req.vids[k]
                 if snap["unit_module"][v] != want[2] and not _freed_since(w, i, k):
                     bad("wrong-virtual-qubit", f"pair {k} of request {i} must map virtual qubit {v} to physical {want[2]}",
@@ -409,6 +482,9 @@ def check_quiescent(w: World, snap, case, part) -> None:
     arrays = snap["arrays"]
     for (i, k), want in exp.items():
         req = w.reqs[i]
+        if req.raddr is None:
+            add_violation(part, f"request-never-issued/{w.name}", f"request {i} was never issued although the program finished", case)
+            continue
         sl = (arrays.get(str(req.raddr)) or [])[10 * k:10 * k + 10]
         if sl != want:
             add_violation(part, f"lost-response/{w.name}", f"at quiescence slice {k} of request {i} is {sl}, its response was never stored",
@@ -464,6 +540,42 @@ def expand(shard):
     return part
 
 
+def explore_scenario(shard):
+    """whole BFS of one scenario inside one worker (levels are small; per-level process pools cost more than they give)"""
+    name, cap = shard
+    total = new_part()
+    root = build(name, [])
+    seen = {key(root.snapshot())}
+    frontier: List[List[Tuple]] = [[]]
+    total["states"] += 1
+    depth = 0
+    capped = False
+    while frontier:
+        r = expand((name, frontier))
+        nxt = []
+        for k, h in r.pop("_succ"):
+            if k not in seen:
+                seen.add(k)
+                nxt.append(h)
+        for fld in ("evals", "transitions"):
+            total[fld] += r[fld]
+        for v in r["violations"]:
+            total["violations"].append(v)
+        for c, n in r["counters"].items():
+            total["counters"][c] = total["counters"].get(c, 0) + n
+        total["states"] += len(nxt)
+        total["distinct"] += len(nxt)
+        frontier = nxt
+        depth += 1
+        if len(seen) > cap:
+            total["caps"].append(f"{name}: state cap {cap} reached at depth {depth}")
+            capped = True
+            break
+    total["notes"].append(f"{name}: states={len(seen)} depth={depth} closed={not capped}")
+    total["counters"][f"scenario-closed/{name}"] = 0 if capped else 1
+    return total
+
+
 def explore(ctx, name: str, cap: int):
     root = build(name, [])
     seen = {key(root.snapshot())}
@@ -495,12 +607,11 @@ def _det(case):
 
 
 def run(ctx):
-    names = list(scenarios())
+    names = list(scenarios()) + list(SDK_SCENARIOS)
     ctx.determinism("history replay", _det, [(n, h) for n in names for h in ([], [("step",)] * 12, [("deliver", 1, 0, "recv"), ("step",), ("step",)])
-                                             if not (h and h[0][0] == "deliver" and (1, 0, "recv") not in {r.stream for r in scenarios()[n][1]})])
+                                             if not (h and h[0][0] == "deliver" and (1, 0, "recv") not in {r.stream for r in World(n).reqs})])
     cap = 30000 if ctx.tier == "quick" else 300000
-    for name in names:
-        explore(ctx, name, cap)
+    ctx.pmap(explore_scenario, [(name, cap) for name in names])
     ctx.total["samples"].append({"scenario": "recv-2+1-same-socket",
                                  "history": [["deliver", 1, 0, "recv"], ["step"], ["deliver", 1, 0, "recv"], ["retry"]]})
     for e in ("step", "deliver", "retry"):
